@@ -3,6 +3,7 @@ package interpreter
 import (
 	"fmt"
 	"math"
+	"reflect"
 	"strconv"
 
 	"github.com/ah-naf/borno/ast"
@@ -855,8 +856,47 @@ func isTruthy(value interface{}) bool {
 	return true // Everything else is considered true
 }
 
+// isEqual is total: numbers compare by value whatever their host representation, strings by
+// content, booleans and nil by value, arrays, objects and functions by identity; values of
+// different types are unequal. (A plain a == b on interfaces panics on slices and maps.)
 func isEqual(a, b interface{}) bool {
-	return a == b
+	if an, ok := numericValue(a); ok {
+		bn, ok := numericValue(b)
+		return ok && an == bn
+	}
+	switch av := a.(type) {
+	case nil:
+		return b == nil
+	case bool:
+		bv, ok := b.(bool)
+		return ok && av == bv
+	case string:
+		bv, ok := b.(string)
+		return ok && av == bv
+	case []interface{}:
+		bv, ok := b.([]interface{})
+		return ok && reflect.ValueOf(av).Pointer() == reflect.ValueOf(bv).Pointer() && len(av) == len(bv)
+	case map[string]interface{}:
+		bv, ok := b.(map[string]interface{})
+		return ok && reflect.ValueOf(av).Pointer() == reflect.ValueOf(bv).Pointer()
+	case *Function:
+		bv, ok := b.(*Function)
+		return ok && av == bv
+	}
+	// built-in functions: stateless values, equal when they are the same built-in
+	return b != nil && reflect.TypeOf(a) == reflect.TypeOf(b)
+}
+
+func numericValue(v interface{}) (float64, bool) {
+	switch n := v.(type) {
+	case float64:
+		return n, true
+	case int64:
+		return float64(n), true
+	case int:
+		return float64(n), true
+	}
+	return 0, false
 }
 
 func getLineNumber(expr ast.Expr) int {
